@@ -14,15 +14,15 @@ CHECKS = {
  "C02": ("exploration", "runtime monitor: the four generated modules are parsed and every type/value reference is resolved by a module-graph resolver; duplicates and index.ts re-exports compared with the files the run wrote",
          "held on everything observed: custom struct/enum at 18-22 structural positions x 5 sites x 2 modes, event layouts (same event from several places, colliding identifiers, none), seeded compound projects; counter references_resolved says how many references were checked", "4 C02"),
  "C03": ("exploration", "runtime monitor: generated directory layouts with ground truth; wrappers identified by the decoded invoke literal and compared with the expected command set",
-         "held on everything observed: 400 (quick) / 5 000 (thorough) layouts of 1-8 files at depth 0-4 with 7 attribute spellings, 4 visibilities, sync/async, 9 decoy kinds, target/ .git/ non-.rs and unparsable neighbours; evidence counts commands expected and decoys planted", "4 C03"),
+         "held on everything observed: 400 (quick) / 40 000 (thorough) layouts of 1-8 files at depth 0-4 with 7 attribute spellings, 4 visibilities, sync/async, 9 decoy kinds, target/ .git/ non-.rs and unparsable neighbours; evidence counts commands expected and decoys planted", "4 C03"),
  "C04": ("exploration", "runtime monitor: delivered key set computed symbolically from the parsed invoke call site and compared with heck (Tauri's renaming) / real serde rename_all",
          "held on everything observed: commands with 0-6 parameters mixing value, channel and 16 injected spellings, 24 snake_case name shapes, 8 default_parameter_case values, both modes; optionality iff Option; same key set in both modes", "4 C04"),
  "C05": ("exploration", "runtime monitor: real CLI on generated projects; every emitted type parsed by the TS/Zod oracle and compared with the reference denotation M (re-validated against real serde_json each run)",
          "held on everything observed: all chains of 18 constructor slots over 7 leaves to depth 2 (quick) / 3 (thorough) at the five sites in both modes, every primitive spelling, seeded deeper trees; mismatches equal to a recorded defect model are KNOWN-FINDINGs, anything else is a VIOLATION", "4 C05"),
  "C06": ("translation_validation", "runtime monitor: identical struct/enum definitions compiled against real serde_derive/serde_json (oracle crate) and fed to the real CLI; decoded keys/literals compared name by name",
-         "per generated definition the emitted key/literal list equals what serde_json actually printed; 9 rename_all x 18 field-attribute variants x 13 identifier shapes (fields) and 6 variant-attribute variants x 10 shapes (variants); 1 oracle build in quick, 8 in thorough", "4 C06"),
+         "per generated definition the emitted key/literal list equals what serde_json actually printed; 9 rename_all x 18 field-attribute variants x 13 identifier shapes (fields) and 6 variant-attribute variants x 10 shapes (variants); 1 oracle build in quick, 24 in thorough", "4 C06"),
  "C07": ("exploration", "runtime monitor: generated type-dependency graphs with ground-truth reachability; declared type set parsed from types.ts and compared",
-         "held on everything observed: every edge context (18) x root kind (7) systematically plus 300 (quick) / 4 000 (thorough) random graphs of 2-10 types over 1-5 files with cycles, unreachable, non-serde and error-arm-only decoys, both modes", "4 C07"),
+         "held on everything observed: every edge context (18) x root kind (7) systematically plus 300 (quick) / 30 000 (thorough) random graphs of 2-10 types over 1-5 files with cycles, unreachable, non-serde and error-arm-only decoys, both modes", "4 C07"),
  "C08": ("exploration", "runtime monitor (differential over histories): edit / non-forced-run sequences against the real CLI and the real build-script entry point; after every successful run the output directory is compared with the tool's own forced generation of the current state",
          "held on everything observed: 37 edit classes; all length-1 histories on both paths and modes, all ordered length-2 histories on the CLI path, sampled length-2 on the build path and with skipped intermediate runs, sampled length 3 (thorough: length-2 exhaustive on both paths, 12 000 length-3, 1 500 of length 4-7); evidence counts cache hits actually observed", "4 C08"),
  "C09": ("exploration", "runtime monitor: Zod-mode runs of the real CLI over enumerated DAGs under replayable hash seeds; declaration-before-use scan over the parsed types.ts",
@@ -30,9 +30,9 @@ CHECKS = {
  "C10": ("exploration", "runtime monitor: each project generated in both modes by the real CLI; plain declarations and Zod schemas parsed into one shape model and diffed key by key; serde_json values replayed through a mini-Zod interpreter of the emitted parameter schemas",
          "held on everything observed: type chains exhaustive to depth 2 (quick) / 3 (thorough) at field and parameter sites plus seeded deeper trees; name sets equal; value-level acceptance on a real-serde sample; differences equal to a recorded defect model are KNOWN-FINDINGs", "4 C10"),
  "C11": ("exploration", "runtime monitor: generated validated structs with declared constraints as ground truth; method chains of the emitted field schemas parsed and compared as multisets of (method, decoded number, decoded message)",
-         "held on everything observed: 350 (quick) / 7 000 (thorough) projects, ~3 300 / ~66 000 fields over length/range/email/url combinations, 10 field types, 27 bound spellings, messages over Unicode/quotes/backslashes/parentheses/keywords, one or several attributes", "4 C11"),
+         "held on everything observed: 350 (quick) / 40 000 (thorough) projects, ~3 300 / ~380 000 fields over length/range/email/url combinations, 10 field types, 27 bound spellings, messages over Unicode/quotes/backslashes/parentheses/keywords, one or several attributes", "4 C11"),
  "C12": ("exploration", "runtime monitor: generated emit placements / receivers / payload forms with ground truth; listeners parsed from events.ts (listen literal, identifier, payload type) and compared",
-         "held on everything observed: every placement (18), documented receiver form (8) and payload form (33) systematically in both modes plus 300 (quick) / 5 000 (thorough) random projects with 1-5 events emitted from 1-3 functions/files over the Tauri event-name alphabet; no-events case", "4 C12"),
+         "held on everything observed: every placement (18), documented receiver form (8) and payload form (33) systematically in both modes plus 300 (quick) / 30 000 (thorough) random projects with 1-5 events emitted from 1-3 functions/files over the Tauri event-name alphabet; no-events case", "4 C12"),
  "C13": ("exploration", "runtime monitor (differential): the real CLI on one project under replayable hash seeds (getrandom shim), OS-entropy processes, permuted directory order, --verbose/--visualize-deps and semantics-preserving source transformations; byte / declaration-multiset comparison",
          "held on everything observed: 60 (quick) / 600 (thorough) multi-file projects x 12/48 schedules x 4/8 transformations; evidence reports how many distinct outputs and declaration orders were actually seen (1 per project when the property holds)", "4 C13"),
  "C14": ("exploration", "runtime monitor (filesystem): snapshot of bytes/mtime_ns/inode around the second run plus strace log of mutating syscalls; forced runs from five cache states observed by content and mtime",
@@ -40,15 +40,15 @@ CHECKS = {
  "C15": ("exploration", "runtime monitor (exit/abort + differential): real CLI and library entry point (catch_unwind) on generated exotic Rust, fuzzed attribute payloads, a real-world corpus and its mutations, and non-Rust text; failing batches bisected to one input; project vs project+unparsable-file comparison",
          "held on everything observed: 3 300 generated + 1 500 corpus + 1 450 mutated corpus inputs + 66 non-Rust + 150 isolation projects in quick; thorough: 20 000 generated, every .rs file of the repository, the offline registry and the toolchains (~13 000), 40 000 mutants, 1 500 isolation projects", "4 C15"),
  "C16": ("exploration", "runtime monitor (filesystem): recursive snapshot of a whole sandbox before/after every run + strace classification of every mutating syscall by target path",
-         "held on everything observed: 300 (quick) / 4 000 (thorough) sandboxes x 2-3 runs; output directory in 5 placements pre-populated with foreign and near-miss files, symlinks, stale reserved files; CLI absolute/relative/config, init and build-script paths; runs that find no commands; mode switches", "4 C16"),
+         "held on everything observed: 300 (quick) / 15 000 (thorough) sandboxes x 2-3 runs; output directory in 5 placements pre-populated with foreign and near-miss files, symlinks, stale reserved files; CLI absolute/relative/config, init and build-script paths; runs that find no commands; mode switches", "4 C16"),
  "C17": ("fault_enumeration", "runtime monitor with fault injection: strace -P <file> -e inject (openat EACCES, write ENOSPC, SIGKILL at open) and filesystem obstacles (EISDIR, ENOTDIR) on the real processes; recovery compared with the tool's own fresh generation",
          "enumerated: 8 targets x 5 fault kinds x 3 phases (first run, after edit, edit-then-revert) x 2 modes on the CLI path plus a build-script slice in quick; both paths completely in thorough; evidence reports fault points requested vs actually hit and the exit codes seen", "4 C17"),
  "C18": ("exploration", "runtime monitor (differential + reference): each project generated by the real CLI with and without the mapping table; mapped positions compared with the reference denotation, identifier scan for leftovers, declaration-multiset diff of everything else",
-         "held on everything observed: 10 single-entry tables (plain and generic names) + 6 (quick) / 40 (thorough) multi-entry tables x ~60 constructor positions x 5 sites x 2 modes, with near-miss-named unrelated declarations in every project", "4 C18"),
+         "held on everything observed: 10 single-entry tables (plain and generic names) + 6 (quick) / 150 (thorough) multi-entry tables x ~60 constructor positions x 5 sites x 2 modes, with near-miss-named unrelated declarations in every project", "4 C18"),
  "C19": ("exploration", "runtime monitor: generated JSON documents through the real init / save_to_tauri_config and an exact JSON reader; effect-based observation of every cell of the flag/file/default matrix; snapshot diff for rejected settings",
-         "held on everything observed: 300 (quick) / 10 000 (thorough) documents (nesting <= 6, i64/u64-range integers, decimals, Unicode, 7 plugins-section shapes), round trip of the ten persisted settings, all 2^5 flag subsets x 4 file contents x 2 config sources (286 cells), 16 rejection / override cases", "4 C19"),
+         "held on everything observed: 300 (quick) / 40 000 (thorough) documents (nesting <= 6, i64/u64-range integers, decimals, Unicode, 7 plugins-section shapes), round trip of the ten persisted settings, all 2^5 flag subsets x 4 file contents x 2 config sources (286 cells), 16 rejection / override cases", "4 C19"),
  "C20": ("exploration", "runtime monitor: real ordering routines driven over enumerated graphs, each result judged by a closure/SCC oracle; crash = replayed and bisected",
-         "held on every call observed: exhaustive over all digraphs (self-loops included) on <=3 nodes in quick and <=4 nodes in thorough, x all requested subsets x repeated fresh hash seeds, plus random graphs to 12 nodes; evidence reports distinct result orders seen per case", "4 C20"),
+         "held on every call observed: exhaustive over all digraphs (self-loops included) on <=3 nodes in quick and <=4 nodes in thorough (16 repeats), x all requested subsets x fresh hash seeds, plus 128 000 five-node graphs and 1.28 M random graphs to 12 nodes in thorough; evidence reports distinct result orders seen per case", "4 C20"),
 }
 
 NOT_YET = {
